@@ -79,6 +79,10 @@ def corpus(tier):
             sc.clients = sc.clients[:1]
             sc.kinds = ''
             out.append(sc)
+    # concurrent clients on one worker: a keep-alive connection that switches / re-creates upstreams next to
+    # another client that opens its upstream at several relative offsets, plus a third connection afterwards
+    nb = [sc for sc in c05.neighbour_scenarios('quick') if sc.mode == 'local']
+    take(nb, lambda sc: sc.name.split('@')[-1] in (('3', '8', '9') if q else ('2', '3', '5', '7', '8', '9', '10', '12')), 18 if q else 96)
     # de-duplicate by name, make mode-neutral
     uniq = {}
     for s in out:
@@ -86,6 +90,8 @@ def corpus(tier):
         s2.features = {k: v for k, v in s.features.items() if not k.startswith('_') or k == '_sockbuf'}
         s2.features['origin_check'] = s.name.split('/')[0]
         s2.kinds = ('ARS' if 'D' not in s.kinds else 'D') if s.features.get('role') != 'tls_front' else 'A'
+        if s.features.get('role') == 'neighbour':
+            s2.kinds = 'AE'
         if s.features.get('class') == 'big' or 'big' in s.name.split('/'):
             # the full-size transfer has ~300 alternatives per execution and each execution moves 200 KiB:
             # d <= 2 on it is C01's job (one mode); the three-mode differential keeps it at d <= 1
@@ -116,7 +122,10 @@ def _unit(i):
     base = _BASES[i]
     res = {}
     stats = {}
-    for mode in MODES:
+    # thread-per-connection mode is driven one connection per execution (connections share nothing there);
+    # conversations with concurrent clients compare the two multiplexing modes
+    modes = MODES if len(base.clients) == 1 else MODES[:2]
+    for mode in modes:
         scn = remode(base, mode)
         outcomes = {}
 
@@ -130,7 +139,7 @@ def _unit(i):
         stats[mode] = (st.executions, st.turns, len(st.traces), st.no_quiescence)
     viol = []
     ref = set(res['local'].keys())
-    for mode in MODES[1:]:
+    for mode in modes[1:]:
         cur = set(res[mode].keys())
         if cur != ref:
             only_here = sorted(cur - ref, key=repr)[:1]
@@ -138,7 +147,7 @@ def _unit(i):
             viol.append({'mode': mode,
                          'only_in_' + mode: [(summarize(o), res[mode][o]) for o in only_here],
                          'only_in_local': [(summarize(o), res['local'][o]) for o in only_ref]})
-    return {'i': i, 'name': base.name, 'stats': stats, 'viol': viol, 'n_outcomes': {m: len(res[m]) for m in MODES}}
+    return {'i': i, 'name': base.name, 'stats': stats, 'viol': viol, 'n_outcomes': {m: len(res[m]) for m in modes}}
 
 
 # ------------------------------------------------------------------ part 2: thrmc
